@@ -36,3 +36,31 @@ pub use project::{
 #[cfg(feature = "spill")]
 pub use sort::{DEFAULT_SPILL_THRESHOLD, SpillableSortPushOperator};
 pub use sort::{NullOrder, SortDirection, SortKey, SortPushOperator};
+
+use crate::execution::chunk::DataChunk;
+use crate::execution::operators::OperatorError;
+use crate::execution::pipeline::{DEFAULT_CHUNK_SIZE, Sink};
+use crate::execution::vector::ValueVector;
+use grafeo_common::types::Value;
+
+/// Hands materialized rows to `sink` in chunks of at most [`DEFAULT_CHUNK_SIZE`] rows.
+///
+/// Pipeline breakers emit their whole result in `finalize`. One chunk for all of it can
+/// be arbitrarily large, while downstream operators address rows inside a chunk with
+/// 16-bit selection indices.
+pub(crate) fn emit_rows(
+    rows: &[Vec<Value>],
+    num_cols: usize,
+    sink: &mut dyn Sink,
+) -> Result<(), OperatorError> {
+    for part in rows.chunks(DEFAULT_CHUNK_SIZE) {
+        let mut columns: Vec<ValueVector> = (0..num_cols).map(|_| ValueVector::new()).collect();
+        for row in part {
+            for (col_idx, col) in columns.iter_mut().enumerate() {
+                col.push(row.get(col_idx).cloned().unwrap_or(Value::Null));
+            }
+        }
+        sink.consume(DataChunk::new(columns))?;
+    }
+    Ok(())
+}
